@@ -312,7 +312,7 @@ fn pure_level(rep: &mut Report, shard: usize, n: usize, thorough: bool, seed: u6
     // random Unicode strings against every validated category
     let mut rng = Rng::derive(seed, 77, shard as u64);
     let pool: Vec<char> = "aZ09_.%#{}-+, é日\u{0661}\u{FF11}😀\u{0}".chars().collect();
-    let rounds = if thorough { 200_000 } else { 20_000 };
+    let rounds = if thorough { 2_000_000 } else { 200_000 };
     let cats = ["Identifier", "Property", "GUID", "Version", "Language", "Cabinet", "Integer", "DoubleInteger", "UpperCase", "LowerCase", "Text", "Formatted"];
     let mut s = String::new();
     for _ in 0..rounds {
@@ -340,6 +340,10 @@ fn gate_level(rep: &mut Report, shard: usize, n: usize, thorough: bool, seed: u6
     defs.push(ColDef::new("V", CT::Int16).range(-5, 5).nullable());
     defs.push(ColDef::new("V", CT::Int32));
     defs.push(ColDef::new("V", CT::Int32).range(0, 1 << 30).nullable());
+    // the tested column as part of the primary key, nullable and not
+    defs.push(ColDef::new("V", CT::Str(8)).nullable().key());
+    defs.push(ColDef::new("V", CT::Int16).nullable().key());
+    defs.push(ColDef::new("V", CT::Str(8)).key());
     let mut rng = Rng::derive(seed, 707, shard as u64);
     for (di, def) in defs.iter().enumerate() {
         if di % n != shard {
@@ -363,13 +367,12 @@ fn gate_level(rep: &mut Report, shard: usize, n: usize, thorough: bool, seed: u6
             vals.push(V::s(s));
         }
         let alpha: Vec<char> = "aZ0_.%#,+- é".chars().collect();
-        let extra = if thorough { 600 } else { 60 };
+        let extra = if thorough { 3000 } else { 300 };
         for _ in 0..extra {
             let len = rng.usize(7);
             vals.push(V::Str((0..len).map(|_| *rng.pick(&alpha)).collect()));
         }
         let mut key = 0i32;
-        let mut last_ok_key: Option<i32> = None;
         for v in &vals {
             key += 1;
             let want = ref_valid(def, v);
@@ -394,14 +397,24 @@ fn gate_level(rep: &mut Report, shard: usize, n: usize, thorough: bool, seed: u6
                     json!({"kind": "gate", "column": def.to_json(), "value": v.to_json()}),
                 );
             }
-            if accepted {
-                last_ok_key = Some(key);
+            rep.case(Some(fnv(format!("gate:{}:{:?}:{}", di, want, value_fp(v)).as_bytes())));
+            if key % 150 == 0 {
+                let _ = pkg.delete_rows(msi::Delete::from(tname.clone()));
             }
-            // the same gate through update
-            if let Some(k0) = last_ok_key {
-                let r = guarded(|| {
-                    pkg.update_rows(msi::Update::table(tname.clone()).set("V", v.to_msi()).with(msi::Expr::col("K").eq(msi::Expr::integer(k0))))
-                });
+        }
+        // the same gate through update, for EVERY candidate value (null first), on a row that exists
+        let _ = pkg.delete_rows(msi::Delete::from(tname.clone()));
+        let mut have_row = false;
+        for v in &vals {
+            if ref_valid(def, v) == Verdict::Valid && pkg.insert_rows(msi::Insert::into(tname.clone()).row(vec![msi::Value::Int(1), v.to_msi()])).is_ok() {
+                have_row = true;
+                break;
+            }
+        }
+        if have_row {
+            for v in &vals {
+                let want = ref_valid(def, v);
+                let r = guarded(|| pkg.update_rows(msi::Update::table(tname.clone()).set("V", v.to_msi()).with(msi::Expr::col("K").eq(msi::Expr::integer(1)))));
                 rep.count("gate_updates");
                 match r {
                     Err(p) => {
@@ -416,20 +429,17 @@ fn gate_level(rep: &mut Report, shard: usize, n: usize, thorough: bool, seed: u6
                         let acc = res.is_ok();
                         if !want.admits(acc) {
                             rep.violation(
-                                format!("C07/update-gate/{}/{}", def.category.unwrap_or(ct_class(def.ty)), if acc { "accepted-invalid" } else { "refused-valid" }),
+                                format!("C07/update-gate/{}/{}/{}", def.category.unwrap_or(ct_class(def.ty)), v.class(), if acc { "accepted-invalid" } else { "refused-valid" }),
                                 format!("update to {} in column {}: {} but the value is {:?}", v.to_json(), def.to_json(), if acc { "accepted" } else { "refused" }, want),
                                 json!({"kind": "gate", "column": def.to_json(), "value": v.to_json()}),
                             );
                         }
                     }
                 }
-            }
-            rep.case(Some(fnv(format!("gate:{}:{:?}:{}", di, want, value_fp(v)).as_bytes())));
-            if key % 150 == 0 {
-                let _ = pkg.delete_rows(msi::Delete::from(tname.clone()));
-                last_ok_key = None;
+                rep.case(Some(fnv(format!("gateupd:{}:{:?}:{}", di, ref_valid(def, v), value_fp(v)).as_bytes())));
             }
         }
+        // and on key columns: null / invalid values assigned to a nullable and a non-nullable key
         let _ = pkg.drop_table(&tname);
     }
     // arity 0..33 on a three-column table: only arity 3 may succeed
